@@ -10,15 +10,108 @@ TRUSTED = ['Lean 4.33.0 kernel (+ leanchecker in the thorough tier)',
            'axioms: propext, Classical.choice, Quot.sound only (audited per theorem)',
            'harness/extract.py (live tables in the driver), harness/c03.py + apel.py (generator, fixture modules, comparison), Drv.lean protocol parsing',
            'compiled driver peldrv agrees with the kernel reading of the same definitions']
-ASSUME = ['the message registry is empty in this sandbox (no pel_registry package): "Error Details" / registry messages are not modelled (stated partial)',
+ASSUME = ['the message registry is a parameter (`SrcEnv.registry`, installed on the real side as `pel.peltool.src.registry.pels`; the sandbox has no '
+          'pel_registry package, so the shipped registry file itself is not read): entries have string-valued ReasonCode / Type / Message / '
+          'MessageArgSources items / Description / AdditionalDataPropSource; Python constructs outside the modelled subset (`{` or `}` in a message '
+          'with argument sources, a non-ASCII last character of an argument source, a Words6To9 key that is not a string of ASCII digits) make the '
+          'model answer "unsupported" and are counted and skipped',
           'procedure descriptions come from the shipped ocallouts table (read from the live module) and from fixture callout modules',
           'decoder-imposed well-formedness: callout sizes add up to a multiple of four, a PCE name has at least one byte, word count <= 9, every callout has a FRU identity']
 RULE = ('cases = PELs with primary/secondary SRC sections: all 32-bit word patterns incl. the status bits, all flag bytes, word counts 0..9, 0..6 '
         'callouts over all 16 FRU flag combinations x PCE present/absent x MRU counts {0,1,2,3,15} x location lengths {0..80}, BMC / power / '
-        'hostboot / other types, SRC parser modules echo / raising / absent, plugins on and off; plus out-of-domain inputs (word count >= 10, PCE '
-        'size < 24, non-ASCII text) for the correspondence only; non-trivial = an SRC with at least one callout; distinct by bytes')
+        'hostboot / other types, SRC parser modules echo / raising / absent, plugins on and off; message registries of 0..6 entries (reason codes '
+        'that contain one another as substrings, types BD / 11 / BC / other / absent, messages with 0..4 placeholders incl. %0, %%1, %12, repeated '
+        'digits, more and fewer placeholders than argument sources, sources SRCWord0..SRCWord9 and malformed ones, Words6To9 with / without '
+        'Description, keys 6..9 and 0, 1, 10, a "Message" property key), about half of the SRCs hitting a reason code of the registry in use; plus '
+        'out-of-domain inputs (word count >= 10, PCE size < 24, non-ASCII text) for the correspondence only; non-trivial = an SRC with at least one '
+        'callout or with "Error Details"; distinct by bytes')
 SRC_FIX = {'xsrc': ('echo',), 'ysrc': ('raises',), 'o8d00': ('echo',), 'oab00': ('raises',), 'occ00': ('text', 'null'), 'bsrc': ('echo',)}
 CO_FIX = {'x': ('table', {'PROC0001': ['line one', 'line "two"'], 'PROC0002': []})}
+
+# ---- message registries
+CODES = ['8D34', '8d34', 'AB34', 'CC34', '7734', '2034', '8D10', '8d10', 'AB10', 'CC10', '7710', '2010', '2600']
+PIECES = ['rc ', ' value ', '.', '', '', ' at 100% ', ' %0 ', ' %%', '\u00e9 ', ' "q" ', '\\', ' word', '%']
+PLACES = ['%1', '%2', '%3', '%9', '%1', '%2']
+SOURCES = ['SRCWord6', 'SRCWord7', 'SRCWord8', 'SRCWord9', 'SRCWord6', 'SRCWord9', 'SRCWord2', 'SRCWord5', 'SRCWord3', 'SRCWord4',
+           'SRCWord0', 'SRCWord1', 'SRCWord10', '7']
+BAD_SOURCES = ['', 'SRCWord', 'SRCWordX', 'SRCWord ', 'SRCWord\u0663', 'SRCWord\u00b2', '-']
+WORD_KEYS = ['6', '7', '8', '9', '6', '7', '8', '9', '0', '1', '10', '2', '06', '11']
+BAD_KEYS = [' 6', '+7', 'x', '', '-1', '\u0666', '1_0']
+PROPS = ['RC', 'PROP', 'Message', 'CALLOUT_IID', 'RC', 'Error Details']
+
+
+def gen_reason(rng):
+    c = rng.choice(CODES)
+    k = rng.random()
+    if k < 0.55:
+        return '0x' + c
+    if k < 0.72:
+        return '0x' + c + rng.choice(['1234', '0', ' 0x2600', 'F'])      # the SRC's code is a proper substring of this one
+    if k < 0.80:
+        return rng.choice(['BD', 'zz ', '0x']) + '0x' + c
+    if k < 0.90:
+        return '0x' + c[:3]                                               # a proper prefix of an SRC's code: never matches
+    return rng.choice(['0x', '', c, '0X' + c])
+
+
+def gen_message(rng):
+    """(message, number of %[1-9] pieces put in)"""
+    if rng.random() < 0.05:
+        return '', 0
+    n = rng.choice([0, 1, 2, 2, 3, 4])
+    m = rng.choice(PIECES)
+    for _ in range(n):
+        m += rng.choice(PLACES) + rng.choice(PIECES)
+    if rng.random() < 0.2:
+        m += rng.choice(['%12', '%%1', '%0', '%', '%a', '%1%2', '%10'])
+    if rng.random() < 0.03:
+        m += rng.choice(['{', '}', '{}', '{0}', '{{}}'])
+    return m, n
+
+
+def gen_entry(rng):
+    src, doc = {}, {}
+    if rng.random() < 0.93:
+        src['ReasonCode'] = gen_reason(rng)
+    ty = rng.choice(['BD', 'BD', '11', 'BC', None, None, 'B7', 'bd'])
+    if ty is not None:
+        src['Type'] = ty
+    doc['Message'], n = gen_message(rng)
+    if rng.random() < 0.7:
+        k = max(0, n + rng.choice([0, 0, 0, 0, 1, 2, -1]))
+        doc['MessageArgSources'] = [rng.choice(BAD_SOURCES) if rng.random() < 0.04 else rng.choice(SOURCES) for _ in range(k)]
+    if rng.random() < 0.55:
+        w = {}
+        for _ in range(rng.choice([0, 1, 2, 3, 4, 5])):
+            key = rng.choice(BAD_KEYS) if rng.random() < 0.04 else rng.choice(WORD_KEYS)
+            wc = {}
+            if rng.random() < 0.85:
+                wc['Description'] = rng.choice(['the rc', 'a word', '', 'caf\u00e9 "x"', 'Message'])
+            if rng.random() < 0.93:
+                wc['AdditionalDataPropSource'] = rng.choice(PROPS)
+            w[key] = wc
+        src['Words6To9'] = w
+    return {'SRC': src, 'Documentation': doc}
+
+
+def gen_registry(rng):
+    return [gen_entry(rng) for _ in range(rng.choice([0, 1, 2, 3, 4, 6, 6]))]
+
+
+def hit_ascii(rng, reg):
+    """an SRC reference code whose characters 4..7 occur (after "0x") in a reason code of the registry, usually of that entry's type"""
+    cands = []
+    for e in reg:
+        rc = e['SRC'].get('ReasonCode', '')
+        i = rc.find('0x')
+        if i >= 0 and len(rc) >= i + 6 and rc[i + 2:i + 6].isascii():
+            cands.append((e, rc[i + 2:i + 6]))
+    if not cands:
+        return None
+    e, code = rng.choice(cands)
+    ty = e['SRC'].get('Type', 'BD') if rng.random() < 0.85 else rng.choice(['BD', '11', 'BC', 'B7'])
+    a = ty.encode() + rng.choice([b'12', b'00', b'70']) + code.encode() + rng.choice([b'', b' trailing', b'34'])
+    return a.ljust(32, rng.choice([b' ', b'\0']))[:32]
 
 
 def run(tier, seed):
@@ -28,11 +121,14 @@ def run(tier, seed):
         return ck.finish(RULE, TRUSTED, ASSUME)
     rng = ck.rng
     thorough = tier == 'thorough'
-    for allow in (True, False):
-        env = apel.PluginEnv(allow=allow, src=SRC_FIX, callout=CO_FIX).install()
+    groups = [(allow, g) for allow in (True, False) for g in range(24 if thorough else 10)]
+    for allow, g in groups:
+        registry = [] if g == 0 else gen_registry(rng)
+        ck.count('registry entries: %s' % ('0' if not registry else '1-2' if len(registry) <= 2 else '3+'))
+        env = apel.PluginEnv(allow=allow, src=SRC_FIX, callout=CO_FIX, registry=registry).install()
         try:
             pels, dom = [], []
-            for i in range(1200 if thorough else 250):
+            for i in range(50 if thorough else 25):
                 p = apel.gen_pel(rng, max_sections=0)
                 p['ph']['creator'] = ord(rng.choice('OOOxyB'))
                 secs = []
@@ -42,6 +138,8 @@ def run(tier, seed):
                     code = rng.choice([b'8D', b'8d', b'AB', b'CC', b'77', b'20'])
                     x['ascii'] = rng.choice([(ty + b'12' + code + b'34').ljust(32, b' '), (ty + b'00' + code + b'10' + b' trailing').ljust(32, b'\0')])[:32]
                     x['words'] = [rng.choice([0, 0xFFFFFFFF, 0x20000000, 0x02000000, 0x01000000, 0x23000000, 0x000000FF, 0xABCD1234, rng.randrange(2 ** 32)]) for _ in range(8)]
+                    if rng.random() < 0.55:
+                        x['ascii'] = hit_ascii(rng, registry) or x['ascii']
                     if x['callouts']:
                         for c in x['callouts']['callouts']:
                             if c['fru']['flags'] & 0x02 and rng.random() < 0.7:
@@ -68,7 +166,14 @@ def run(tier, seed):
                 spec = apel.dec_spec(r)
                 real = apel.real_decode(data, allow_plugins=allow)
                 ncall = sum(len(s['src']['callouts']['callouts']) for s in p['sections'] if s['src']['callouts'])
-                ck.case(key=data if ncall else None, sample={'plugins': allow, 'creator': chr(p['ph']['creator']), 'srcs': len(p['sections']), 'callouts': ncall, 'in_domain': ok})
+                shown = real[0] == 'doc' and '"Error Details"' in real[4]
+                if ok:
+                    hit = sum(1 for s in p['sections'] for e in registry
+                              if 'ReasonCode' in e['SRC'] and e['SRC'].get('Type', 'BD') == s['src']['ascii'][0:2].decode('latin-1')
+                              and '0x' + s['src']['ascii'][4:8].decode('latin-1') in e['SRC']['ReasonCode'])
+                    ck.count('registry: %s' % ('no entry matches' if not hit else 'entry matches -> ' + ('"Error Details" shown' if shown else
+                             'unsupported by the model' if model[0] == 'unsupported' else 'PEL rejected' if real[0] == 'error' else 'no "Error Details" (empty message / type without details)')))
+                ck.case(key=data if (ncall or shown) else None, sample={'plugins': allow, 'creator': chr(p['ph']['creator']), 'srcs': len(p['sections']), 'callouts': ncall, 'in_domain': ok})
                 ck.count('plugins=%s callouts=%s %s' % (allow, '0' if ncall == 0 else '1-2' if ncall <= 2 else '3+', 'in-domain' if ok else 'out-of-domain -> ' + real[0]))
                 for s in p['sections']:
                     for c in (s['src']['callouts'] or {'callouts': []})['callouts']:
